@@ -276,6 +276,9 @@ ENTRIES_FOR = {
 }
 
 
+COMPANION = None      # a valid compact token the 'extract-interleaved' entry parses between extract and validate
+
+
 class Result:
     __slots__ = ("accepted", "exc", "payload", "protected", "unprotected", "headers", "entry", "obj")
 
@@ -309,6 +312,15 @@ def deliver(entry: str, ser, keyarg, detached=None, algorithms=None, registry=No
                 obj = jws.deserialize_compact(ser, keyarg, **kw)
             elif entry == "extract+validate":
                 obj = jws.extract_compact(ser.encode("utf-8") if isinstance(ser, str) else ser)
+                ok = jws.validate_compact(obj, keyarg, **kw)
+                if ok is not True:
+                    r.exc = ("validate_compact->%r" % (ok,))
+                    return r
+            elif entry == "extract-interleaved":
+                # the two-step API with another (valid) token parsed in between: each object owns its segments
+                obj = jws.extract_compact(ser.encode("utf-8") if isinstance(ser, str) else ser)
+                if COMPANION is not None:
+                    jws.extract_compact(COMPANION.encode("utf-8"))
                 ok = jws.validate_compact(obj, keyarg, **kw)
                 if ok is not True:
                     r.exc = ("validate_compact->%r" % (ok,))
@@ -387,6 +399,18 @@ def judge_accept(res: Result, ser, detached, conf: KeyConf, ledger: Ledger | Non
                     out.append(("header-mismatch", "header returned is not the signed header"))
             elif (got or None) != (want or None):
                 out.append(("header-mismatch", "protected header returned for signature %d is not the signed one" % i))
+    # ... also in the merged view the object hands out: an unsigned member must not stand in for a signed one
+    try:
+        members = res.obj.members if hasattr(res.obj, "members") else None
+        merged = [m.headers() for m in members] if members is not None else None
+    except Exception:
+        merged = None
+    if merged is not None and len(merged) == len(v.sigs):
+        for i, (mg, info) in enumerate(zip(merged, v.sigs)):
+            for name, val in (info.protected or {}).items():
+                if mg.get(name, val) != val:
+                    out.append(("signed-header-member-shadowed", "headers() of signature %d gives %s=%r, the signed value is %r" % (i, name, mg.get(name), val)))
+                    break
     # ledger: every accepted signature was made by the holder of the key it was accepted under
     if ledger is not None:
         for i, info in enumerate(v.sigs):
